@@ -300,6 +300,28 @@ def tr_safety(run):
     for k in ("s_file_max", "s_file_fread", "s_file_err_max"):
         v[k] = fr.get(k) if ok_f else None
 
+    # ---------------------------------------------------------------- cgroup.c, rpname.c
+    cg = strip_comments(run.src("src/datasource/cgroup.c"))
+    cgb = func_body(cg, "snoopy_datasource_cgroup") or ""
+    m = re.search(r"snprintf\s*\(\s*procPidCgroupFilePath\s*,\s*([^,]+),", cgb)
+    cr = _eval_many(run, [("arr", _arr(cgb, "procPidCgroupFilePath")), ("n", m.group(1) if m else None)], extra_defs=_local_defs(cg))
+    v["s_cg_path"] = cr.get("n") if cr.get("n") is not None and cr.get("arr") is not None and cr["n"] <= cr["arr"] else None
+    rp = strip_comments(run.src("src/datasource/rpname.c"))
+    rpb = func_body(rp, "read_proc_property") or ""
+    rdefs = _local_defs(rp)
+    m0 = re.search(r"snprintf\s*\(\s*pid_file\s*,\s*([^,]+),", rpb)
+    m1 = re.search(r"if\s*\(\s*vLen\s*>\s*([A-Za-z_0-9]+)\s*\)\s*\{\s*strncpy\s*\(\s*returnValue\s*,\s*v\s*,\s*([^;]+?)\)\s*;\s*returnValue\s*\[([^\]]+)\]\s*=\s*0\s*;", rpb)
+    m2 = re.search(r"\}\s*else\s*\{\s*strncpy\s*\(\s*returnValue\s*,\s*v\s*,\s*([^;]+?)\)\s*;", rpb)
+    rr = _eval_many(run, [("path_arr", _arr(rpb, "pid_file")), ("path_n", m0.group(1) if m0 else None), ("ret_cap", _arr(rpb, "returnValue")),
+                          ("cmp", m1.group(1) if m1 else None), ("copy_long", m1.group(2) if m1 else None), ("term", m1.group(3) if m1 else None),
+                          ("copy_short", m2.group(1) if m2 else None)], includes=("limits.h", "stddef.h"), extra_defs=rdefs)
+    ok_r = (re.search(r"char\s+returnValue\s*\[[^\]]+\]\s*=\s*\"\"\s*;", rpb) and re.search(r"v\[\s*vLen\s*-\s*1\s*\]\s*=\s*0\s*;", rpb)
+            and re.search(r"return\s+strdup\s*\(\s*returnValue\s*\)", rpb))
+    vals = [rr.get(k) for k in ("cmp", "copy_long", "term", "copy_short")]
+    v["s_rp_path"] = rr.get("path_n") if rr.get("path_n") is not None and rr.get("path_arr") is not None and rr["path_n"] <= rr["path_arr"] else None
+    v["s_rp_val_max"] = vals[0] if ok_r and None not in vals and len(set(vals)) == 1 else None
+    v["s_rp_ret_cap"] = rr.get("ret_cap") if ok_r else None
+
     # ---------------------------------------------------------------- evaluate the global-context expressions
     gr = _eval_many(run, ev, extra_defs="")
     for k, ex in ev:
@@ -319,7 +341,7 @@ def tr_safety(run):
              "s_login_cap", "s_login_with_nul", "s_login_without_nul", "s_login_unknown", "s_dt_cap", "s_dt_size",
              "s_st_buf", "s_st_fread_n", "s_st_comm", "s_st_comm_limit", "s_st_size_min", "s_st_path",
              "s_err_buf", "s_err_guard", "s_ident_buf", "s_path_max", "s_devlog_extra", "s_sock_path_size", "s_sun_path_cap",
-             "s_file_max", "s_file_fread", "s_file_err_max"]
+             "s_file_max", "s_file_fread", "s_file_err_max", "s_cg_path", "s_rp_path", "s_rp_val_max", "s_rp_ret_cap"]
     boolk = {"s_append_strict", "s_ds_pre_nul", "s_chain_term", "s_fname_copy_exact", "s_fname_term", "s_bytelen_wide", "s_fac_guarded", "s_lvl_guarded", "s_cfg_guarded",
              "s_out_split_strchr", "s_ini_use_stack", "s_ini_bom", "s_ini_multiline", "s_ini_inline_comments", "s_ini_strncpy0_term", "s_env_null_guard", "s_err_guard"}
     bytek = {"s_log_prefix", "s_cfg_prefix", "s_env_dots", "s_login_unknown"}
@@ -329,7 +351,7 @@ def tr_safety(run):
     # 'bad' numeric values that cannot satisfy consts_ok: 0 fails the ">= 1" tests for sizes; for upper-bounded fields use a huge value
     for k in ("s_ds_buf_adj", "s_chain_copy_n", "s_log_skip", "s_cfg_skip", "s_ini_max_line", "s_ini_section_copy", "s_ini_name_copy", "s_st_fread_n", "s_st_comm_limit",
               "s_sock_path_size", "s_login_with_nul", "s_login_without_nul", "s_dt_size", "s_default_chain_len", "s_hardmax_log", "s_hardmax_ds",
-              "s_env_trunc_sub", "s_log_malloc_adj", "s_factor_m"):
+              "s_env_trunc_sub", "s_log_malloc_adj", "s_factor_m", "s_rp_val_max"):
         bad[k] = 1 << 62
     for k in list(v):
         if k in boolk and v[k] is None:
